@@ -143,6 +143,49 @@ fn run_step(reps: &[Rep], reference: Option<Position>) -> Result<Vec<Option<(f64
     })
 }
 
+/// the decode1090 command line tool (its main() holds one of the call sites of decode_position): JSON lines in, JSON
+/// lines out, no hook. `-d 0` makes every reception its own group, so records come out one per input, in input order.
+fn run_cli(reps: &[Rep], reference: Option<Position>) -> Result<Vec<Option<(f64, f64)>>, (String, String)> {
+    use std::io::Write;
+    let cli = std::env::var("RSMON_DECODE1090").map_err(|_| ("cli".to_string(), "RSMON_DECODE1090 not set".to_string()))?;
+    let dir = std::env::var("RSMON_TMP").unwrap_or_else(|_| "/tmp".into());
+    let path = format!("{dir}/c06cli.{}.jsonl", std::process::id());
+    {
+        let mut f = std::io::BufWriter::new(std::fs::File::create(&path).map_err(|e| ("cli".to_string(), e.to_string()))?);
+        for r in reps {
+            writeln!(f, "{}", json!({"timestamp": r.ts, "frame": hexs(&r.frame), "metadata": [{"system_timestamp": r.ts, "serial": 1}]})).unwrap();
+        }
+    }
+    let mut cmd = std::process::Command::new(cli);
+    cmd.arg("-i").arg(&path).arg("-d").arg("0");
+    if let Some(p) = reference {
+        cmd.arg(format!("--reference={},{}", p.latitude, p.longitude));
+    }
+    let out = cmd.output();
+    let _ = std::fs::remove_file(&path);
+    let out = out.map_err(|e| ("cli".to_string(), e.to_string()))?;
+    if !out.status.success() {
+        return Err(("decode1090".into(), format!("exit {:?}: {}", out.status.code(), String::from_utf8_lossy(&out.stderr).chars().take(300).collect::<String>())));
+    }
+    let text = String::from_utf8_lossy(&out.stdout);
+    let lines: Vec<&str> = text.lines().filter(|l| !l.trim().is_empty()).collect();
+    if lines.len() != reps.len() {
+        return Err(("decode1090".into(), format!("{} records out for {} valid receptions in", lines.len(), reps.len())));
+    }
+    let mut res = vec![];
+    for (l, r) in lines.iter().zip(reps) {
+        let v: serde_json::Value = serde_json::from_str(l).map_err(|e| ("decode1090".to_string(), format!("output line is not JSON: {e}")))?;
+        if v["frame"].as_str() != Some(hexs(&r.frame).as_str()) {
+            return Err(("decode1090".into(), format!("record for frame {} where {} was expected (records must leave in input order with -d 0)", v["frame"], hexs(&r.frame))));
+        }
+        res.push(match (v["latitude"].as_f64(), v["longitude"].as_f64()) {
+            (Some(a), Some(b)) => Some((a, b)),
+            _ => None,
+        });
+    }
+    Ok(res)
+}
+
 struct Stats {
     reports: u64,
     with_pos: u64,
@@ -157,7 +200,8 @@ fn judge(r: &mut Report, st: &mut Stats, reps: &[Rep], reference: Option<Positio
                "history": reps.iter().map(|x| json!({"ts": x.ts, "frame": hexs(&x.frame), "truth": [x.lat, x.lon], "note": x.note})).collect::<Vec<_>>()})
     };
     let use_step = family.ends_with("/step");
-    let out = if use_step { run_step(reps, reference) } else { run_batch(reps, reference) };
+    let use_cli = family.ends_with("/cli");
+    let out = if use_cli { run_cli(reps, reference) } else if use_step { run_step(reps, reference) } else { run_batch(reps, reference) };
     let out = match out {
         Err((loc, msg)) => {
             r.violation(&format!("C06:panic:{}", short_loc(&loc)), format!("trajectory decoding panicked ({family}): {}", msg_class(&msg)), rp(0));
@@ -190,7 +234,7 @@ fn judge(r: &mut Report, st: &mut Stats, reps: &[Rep], reference: Option<Positio
         for ac in 0..plans.len() {
             let idx: Vec<usize> = (0..reps.len()).filter(|k| reps[*k].ac == ac).collect();
             let alone: Vec<Rep> = idx.iter().map(|k| reps[*k].clone()).collect();
-            let o2 = if use_step { run_step(&alone, reference) } else { run_batch(&alone, reference) };
+            let o2 = if use_cli { run_cli(&alone, reference) } else if use_step { run_step(&alone, reference) } else { run_batch(&alone, reference) };
             if let Ok(o2) = o2 {
                 for (j, k) in idx.iter().enumerate() {
                     let same = match (&out[*k], &o2[j]) {
@@ -256,7 +300,7 @@ fn start_point(rng: &mut Rng, tr: &[f64]) -> (f64, f64, &'static str) {
     }
 }
 
-fn random_scenario(r: &mut Report, st: &mut Stats, rng: &mut Rng, tr: &[f64], step: bool) {
+fn random_scenario(r: &mut Report, st: &mut Stats, rng: &mut Rng, tr: &[f64], mode: u8) {
     let nac = rng.range(1, 4) as usize;
     let with_surface = rng.chance(0.35);
     let t0 = 1.6e9 + rng.uni(0.0, 1e6);
@@ -336,7 +380,7 @@ fn random_scenario(r: &mut Report, st: &mut Stats, rng: &mut Rng, tr: &[f64], st
             }
         }
     }
-    judge(r, st, &reps, reference, if step { "random/step" } else { "random/batch" }, &plans);
+    judge(r, st, &reps, reference, ["random/batch", "random/step", "random/cli"][mode as usize], &plans);
 }
 
 /// deterministic hostile histories aimed at the decoder's windows and aliases
@@ -465,7 +509,11 @@ pub fn run(a: &Args, r: &mut Report) {
     let mut rng = Rng::new(a.seed, a.shard, "C06");
     let n = a.budget(40_000, 2_000_000);
     for i in 0..n {
-        random_scenario(r, &mut st, &mut rng, &tr, i % 4 == 3);
+        // one scenario in 4 through the step API, one in 250 (quick) / 40 (thorough) through the decode1090 executable (one process each)
+        let cli = std::env::var("RSMON_DECODE1090").is_ok();
+        let every = if a.thorough() { 40 } else { 250 };
+        let mode = if cli && i % every == 7 { 2 } else if i % 4 == 3 { 1 } else { 0 };
+        random_scenario(r, &mut st, &mut rng, &tr, mode);
         if i == 0 {
             r.sample(json!({"family": "random", "note": "see replays/ for a full history; each record = (timestamp, DF17 frame hex, truth)"}));
         }
@@ -478,5 +526,11 @@ pub fn run(a: &Args, r: &mut Report) {
     r.class_n("reports:with-position", st.with_pos);
     r.class_n("reports:surface-with-position", st.surface_pos);
     r.max("error_m", st.max_err);
-    r.extra.insert("mandatory".into(), json!(["family:random/batch", "family:random/step", "family:hostile:10s-pairs-across-latitude-zone-edge", "family:hostile:antimeridian-crossing", "non-interference:interleaved==alone", "reports:surface-with-position", "crossing:NL-band", "crossing:antimeridian", "crossing:equator", "gap:170-190s(reference window)", "gap:8.5-11.5s(pairing window)", "phase:airborne->surface"]));
+    if std::env::var("RSMON_DECODE1090").is_ok() {
+        r.assumptions.push("decode1090 -i/-d 0/--reference is observed from outside (JSON lines); altitudes in the generated frames stay above 1000 ft, so its low-altitude reference update never fires and the receiver reference is fixed as the property requires".into());
+    }
+    if std::env::var("RSMON_DECODE1090").is_ok() {
+        r.class_n("engine:decode1090-cli", 0);
+    }
+    r.extra.insert("mandatory".into(), json!([if std::env::var("RSMON_DECODE1090").is_ok() { "family:random/cli" } else { "family:random/batch" }, "family:random/batch", "family:random/step", "family:hostile:10s-pairs-across-latitude-zone-edge", "family:hostile:antimeridian-crossing", "non-interference:interleaved==alone", "reports:surface-with-position", "crossing:NL-band", "crossing:antimeridian", "crossing:equator", "gap:170-190s(reference window)", "gap:8.5-11.5s(pairing window)", "phase:airborne->surface"]));
 }
